@@ -122,9 +122,12 @@ AllSlices(I) == UNION {Slices(I.segs[n]) : n \in DOMAIN I.segs}
 Recomb(I) ==
   LET sl == AllSlices(I)
       fl == IF ATK_LEVEL >= 2 THEN sl ELSE {x \in sl : x.full}
+      big == Cardinality(sl) > 70            \* quick tier: bound the cubic blow-up on segment-rich instances
       one == {<<x.p>> : x \in sl}
-      two == {<<q[1].p, q[2].p>> : q \in {q \in sl \X sl : q[1].end = q[2].start}}
-      thr == {<<q[1].p, q[2].p, q[3].p>> : q \in {q \in fl \X fl \X fl : q[1].end = q[2].start /\ q[2].end = q[3].start}}
+      s2 == IF big /\ ATK_LEVEL < 2 THEN fl ELSE sl
+      two == {<<q[1].p, q[2].p>> : q \in {q \in s2 \X s2 : q[1].end = q[2].start}}
+      s3 == IF Cardinality(fl) > 40 /\ ATK_LEVEL < 3 THEN {} ELSE fl
+      thr == {<<q[1].p, q[2].p, q[3].p>> : q \in {q \in s3 \X s3 \X s3 : q[1].end = q[2].start /\ q[2].end = q[3].start}}
       pkOf(ps) == MkPkt(ps, ps[1].hops[1].as, ps[Len(ps)].hops[Len(ps[Len(ps)].hops)].as)
   IN {LET pk == pkOf(ps) IN MkAtk("recomb", TRUE, pk, pk.src, 0, PktMaxTs(pk), {}, 0) : ps \in one \cup two \cup thr}
 
